@@ -9,3 +9,4 @@ def run(ck):
     threads.r1_globals(ck, P)
     threads.r2_validate_readonly(ck, P)
     threads.r3_drawing_no_mutation(ck, P)
+    threads.r4_sources_untouched(ck, P)
